@@ -385,6 +385,7 @@ def interpret(ctx, g: ModelGrammar, e: int) -> tuple[Optional[dict], str]:
         it = Interp(prog, gcls, atom, call_model, max_depth=40, max_traces=4)
         it.allow_recursion = True
         it.instantiate_classes = True
+        it.strict_iter = True
         it.while_cap = 24
         return it
 
